@@ -282,11 +282,110 @@ fn decode_only<T: Message>(req: &RtReq) -> (Option<bool>, usize) {
     }
 }
 
+#[derive(Clone, Debug)]
+pub struct CrossOut {
+    pub checked_err: Option<String>,
+    pub unchecked_err: Option<String>,
+    pub consumed_checked: usize,
+    pub consumed_unchecked: usize,
+    pub values_equal: bool,
+    pub enc_checked: Vec<u8>,
+    /// checked encoding of the value the UNCHECKED reader produced
+    pub enc_of_unchecked_value: Vec<u8>,
+    pub enc_unchecked_bm: Result<Vec<u8>, String>,
+    pub enc_unchecked_lb: Result<Vec<u8>, String>,
+    pub guards_ok: bool,
+    pub debug: String,
+}
+
+/// Checked vs unchecked binary codec on the same input and on the SAME in-memory value.
+fn cross<T: Message + PartialEq + Debug>(bytes: &[u8]) -> CrossOut {
+    let mut out = CrossOut {
+        checked_err: None,
+        unchecked_err: None,
+        consumed_checked: 0,
+        consumed_unchecked: 0,
+        values_equal: false,
+        enc_checked: vec![],
+        enc_of_unchecked_value: vec![],
+        enc_unchecked_bm: Err("not run".into()),
+        enc_unchecked_lb: Err("not run".into()),
+        guards_ok: true,
+        debug: String::new(),
+    };
+    let mut b1 = Bytes::copy_from_slice(bytes);
+    let (r1, c1) = decode_sync::<T>(PKind::Binary, &mut b1);
+    // exact-size input for the unchecked reader (complete well-formed encodings only)
+    let mut b2 = Bytes::copy_from_slice(bytes);
+    let (r2, c2) = decode_sync::<T>(PKind::Unsafe, &mut b2);
+    out.consumed_checked = c1;
+    out.consumed_unchecked = c2;
+    match (r1, r2) {
+        (Ok(t1), Ok(t2)) => {
+            out.values_equal = t1 == t2;
+            if let Ok((b, _, _)) = encode(PKind::Binary, &t2, false) {
+                out.enc_of_unchecked_value = b;
+            }
+            out.debug = truncate_dbg(&t1);
+            match encode(PKind::Binary, &t1, false) {
+                Ok((b, _, _)) => out.enc_checked = b,
+                Err(e) => out.checked_err = Some(e),
+            }
+            let mut guards = true;
+            out.enc_unchecked_bm = encode(PKind::Unsafe, &t1, false).map(|(b, _, g)| {
+                guards &= g;
+                b
+            });
+            out.enc_unchecked_lb = encode(PKind::Unsafe, &t1, true).map(|(b, _, g)| {
+                guards &= g;
+                b
+            });
+            out.guards_ok = guards;
+        }
+        (a, b) => {
+            out.checked_err = a.err();
+            out.unchecked_err = b.err();
+            out.enc_unchecked_bm = Err("not decoded".into());
+            out.enc_unchecked_lb = Err("not decoded".into());
+        }
+    }
+    out
+}
+
+#[derive(Clone, Copy, Debug, Default)]
+pub struct LeakOut {
+    pub decode_ok: Option<bool>,
+    /// the harness-held handle to the input buffer is the only one again
+    pub input_unique: bool,
+}
+
+fn leak_probe<T: Message>(req: &RtReq) -> LeakOut {
+    let mut data = req.bytes.to_vec();
+    data.extend(std::iter::repeat(0xEE).take(req.sentinel));
+    match &req.mode {
+        Mode::Sync => {
+            let held = Bytes::from(data);
+            let mut b = held.clone();
+            let (r, _) = decode_sync::<T>(req.pk, &mut b);
+            let ok = r.is_ok();
+            drop(r);
+            drop(b);
+            LeakOut { decode_ok: Some(ok), input_unique: held.is_unique() }
+        }
+        Mode::Async(script, cycle) => {
+            let (r, _) = decode_async::<T>(req.pk, data, script.clone(), *cycle, req.poll_budget);
+            LeakOut { decode_ok: r.ok().map(|x| x.is_ok()), input_unique: true }
+        }
+    }
+}
+
 #[derive(Clone)]
 pub struct TypeOps {
     pub roundtrip: fn(&RtReq) -> RtOut,
     /// Some(is_ok) or None on poll-budget exhaustion; bytes consumed
     pub decode_only: fn(&RtReq) -> (Option<bool>, usize),
+    pub cross: fn(&[u8]) -> CrossOut,
+    pub leak_probe: fn(&RtReq) -> LeakOut,
     pub default_bytes: Option<fn(PKind) -> Result<Vec<u8>, String>>,
     pub decodes_to_default: Option<fn(PKind, &[u8]) -> Option<bool>>,
     pub mem_size: usize,
@@ -305,7 +404,7 @@ pub fn entry<T: Message + PartialEq + Debug + 'static>(unit: &'static str, path:
     Entry {
         unit,
         path,
-        ops: TypeOps { roundtrip: roundtrip::<T>, decode_only: decode_only::<T>, default_bytes: None, decodes_to_default: None, mem_size: std::mem::size_of::<T>() },
+        ops: TypeOps { roundtrip: roundtrip::<T>, decode_only: decode_only::<T>, cross: cross::<T>, leak_probe: leak_probe::<T>, default_bytes: None, decodes_to_default: None, mem_size: std::mem::size_of::<T>() },
     }
 }
 
@@ -316,6 +415,8 @@ pub fn entry_default<T: Message + PartialEq + Debug + Default + 'static>(unit: &
         ops: TypeOps {
             roundtrip: roundtrip::<T>,
             decode_only: decode_only::<T>,
+            cross: cross::<T>,
+            leak_probe: leak_probe::<T>,
             default_bytes: Some(default_bytes::<T>),
             decodes_to_default: Some(decodes_to_default::<T>),
             mem_size: std::mem::size_of::<T>(),
